@@ -578,7 +578,28 @@ _bleaf = st.one_of(
     st.tuples(st.just("p1"), _fnspec, st.booleans()).map(list),
     st.sampled_from([["T"], ["F"]]),
 )
-_bexpr = st.recursive(_bleaf, lambda ch: st.one_of(
+
+
+def _mk_twin(p):
+    (plain, caseless), arg, op, n1, n2, up, swap = p
+    a = [plain, arg]
+    b = [caseless, arg.upper() if up else arg]
+    if n1:
+        a = ["not", a]
+    if n2:
+        b = ["not", b]
+    return [op, b, a] if swap else [op, a, b]
+
+
+# the case-sensitive and the case-insensitive variant of one test on the same argument (up to letter case) in one
+# expression - `istartswith("include") & ~startswith("include")` - and the same leaf used twice
+_btwin = st.one_of(
+    st.tuples(st.sampled_from([("eq", "ieq"), ("sw", "isw"), ("ew", "iew"), ("ct", "ict")]),
+              st.sampled_from(["a", "ab", "x", "b", "A"]), st.sampled_from(["and", "or"]), st.booleans(), st.booleans(),
+              st.booleans(), st.booleans()).map(_mk_twin),
+    st.tuples(_bleaf, st.sampled_from(["and", "or"]), st.booleans()).map(
+        lambda p: [p[1], p[0], ["not", list(p[0])] if p[2] else list(p[0])]))
+_bexpr = st.recursive(st.one_of(_bleaf, _bleaf, _bleaf, _btwin), lambda ch: st.one_of(
     st.tuples(st.just("not"), ch).map(list), st.tuples(st.just("and"), ch, ch).map(list),
     st.tuples(st.just("or"), ch, ch).map(list), st.tuples(st.just("not"), ch).map(list)), max_leaves=5)
 
